@@ -532,6 +532,20 @@ class SpecEnv(object):
             x = [e for e in ctx.st.trace if e[0] == kind][i][3]
             return isinstance(x, str) and x == "raise"
         P["ev_raised"] = p_ev_raised
+
+        def p_call_returned(ctx, i):
+            x = [e for e in ctx.st.trace if e[0] == "Call"][i][3]
+            return not (isinstance(x, str) and x == "raise")
+        P["call_returned"] = p_call_returned
+
+        def p_called_and_returned(ctx, f, args):
+            """the trace holds a call of exactly f with exactly these arguments that returned normally"""
+            alts = []
+            for e in ctx.st.trace:
+                if e[0] == "Call" and not (isinstance(e[3], str) and e[3] == "raise"):
+                    alts.append(z3.And(to_val(SVal(e[1]) if z3.is_expr(e[1]) else e[1]) == to_val(f), e[2] == self.to_sort(args, "vl")))
+            return b2v(z3.Or(alts)) if alts else False
+        P["called_and_returned"] = p_called_and_returned
         P["ev_arg"] = lambda ctx, kind, i, k: [e for e in ctx.st.trace if e[0] == kind][i][k]
         P["typeobj"] = lambda ctx, v: SVal(Val.VRef(-1 - typeof(to_val(v))))
 
@@ -823,6 +837,20 @@ class SpecEnv(object):
             same_ = z3.And(now_ == was, z3.Implies(now_, z3.Select(z3.Select(m2, n), a) == z3.Select(z3.Select(m20, n), a)))
             return b2v(z3.ForAll([n, a], z3.Or(z3.And(n == to_val(name), a == to_val(addr)), same_)))
         P["registrations_unchanged_except"] = p_registrations_unchanged_except
+
+        def p_other_servers_untouched(ctx, d, addr):
+            """dict-of-dicts d: every registration (n, a) with a != addr is a member now iff it was at function entry, same time"""
+            e = ctx.engine
+            def view(st):
+                return (e.heap_get(st, d, "has").z, e.heap_get(st, d, "has2").z, e.heap_get(st, d, "map2").z)
+            h, h2, m2 = view(ctx.st)
+            h0, h20, m20 = view(ctx.engine.pre_state if ctx.pre is None else ctx.pre)
+            n, a = z3.Const("q!on", Val), z3.Const("q!oa", Val)
+            now_ = z3.And(z3.Select(h, n), z3.Select(z3.Select(h2, n), a))
+            was = z3.And(z3.Select(h0, n), z3.Select(z3.Select(h20, n), a))
+            same_ = z3.And(now_ == was, z3.Implies(now_, z3.Select(z3.Select(m2, n), a) == z3.Select(z3.Select(m20, n), a)))
+            return b2v(z3.ForAll([n, a], z3.Or(a == to_val(addr), same_)))
+        P["other_servers_untouched"] = p_other_servers_untouched
 
         def p_times_ok(ctx, d):
             """class invariant of the registry's table: every registration carries a time (a float object)"""
